@@ -183,7 +183,8 @@ def prog_term(pl):
 
 
 def prog_known(stmts):
-    """python mirror of FmtStmt.known_prog on the JSON: (adjacent main pipelines, aliased pipeline value)"""
+    """python mirror of FmtStmt.known_prog on the JSON: (adjacent main pipelines, False).  The second component was the
+    aliased pipeline value (C14-main-pipeline-alias, repaired by commit e3202e5): no longer a known class."""
     def is_main(st):
         return isinstance(st.get("VarDef"), dict) and st["VarDef"].get("kind") == "Main"
 
@@ -193,8 +194,6 @@ def prog_known(stmts):
     al = False
     for st in stmts:
         v = st.get("VarDef")
-        if isinstance(v, dict) and v.get("kind") in ("Main", "Into") and isinstance(v.get("value"), dict) and "Pipeline" in v["value"] and v["value"].get("alias") is not None:
-            al = True
         if isinstance(st.get("ModuleDef"), dict):
             a2, l2 = prog_known(st["ModuleDef"]["stmts"])
             adj, al = adj or a2, al or l2
@@ -640,8 +639,7 @@ def run_programs(ck, symidx):
             ck.disagreement("program round trip: model and implementation disagree", dict(case, real_roundtrips=real_ok, model_roundtrips=model_rt, known=known_m), None)
             continue
         if not real_ok:
-            fid = "C14-doc-comment-split" if adj else "C14-main-pipeline-alias"
-            ck.disagreement("formatting changes the program (statement layer)", case, (lambda c, fid=fid: fid))
+            ck.disagreement("formatting changes the program (statement layer)", case, (lambda c: "C14-doc-comment-split" if adj else None))
         # the statement parser model on the real lexer's tokens of the (unwrapped) real output
         if same_text and "pl2" in a and "ok" in lx:
             try:
